@@ -80,6 +80,17 @@ Theorem C01_nfa_accepts_the_documented_language : forall a al m s0,
 Proof. exact nfa_first_rule_is_documented. Qed.
 Print Assumptions C01_nfa_accepts_the_documented_language.
 
+(** The DFA of dfa.c before table compression ([flex -T] prints it), read as a
+    scanner automaton: once the lock-step check has passed on it, its match loop
+    selects the documented token for every input. *)
+Theorem C01_printed_dfa_selects_the_documented_token : forall p sc bol d m,
+  check_view (dview d) (alphabet (p_csize p)) m (spec_start p sc bol) (v_start (dview d) (Z.of_N sc - 1) bol) = true ->
+  forall w, Forall (fun b => (b < p_csize p)%N) w -> w <> [] ->
+    let (r, k) := scan (dview d) (v_start (dview d) (Z.of_N sc - 1) bol) w 0 (0%N, 0%nat) in
+    r <> 0%N /\ (1 <= k)%nat /\ Selected (spec_start p sc bol) w r k.
+Proof. exact printed_dfa_token. Qed.
+Print Assumptions C01_printed_dfa_selects_the_documented_token.
+
 (** Non-vacuity: a concrete program, tables-free instance of the premises. *)
 Example C01_example_selected :
   let p := {| p_csize := 256%N; p_excl := []; p_nsc := 1%N;
